@@ -107,7 +107,7 @@ def main(prop, rule):
         _, obs, recs = impl_run(res, wb, [r['case']], 'replay')
         print('\n'.join(obs)); print('\n'.join(x['what'] for x in recs))
         return 1 if recs else 0
-    consts = step_translate(res, ['rope'] if prop == 'C09' else ['rope', 'slots_iter'])
+    consts = step_translate(res, ['rope', 'arith_rope', 'arith_slots'] if prop == 'C09' else ['rope', 'slots_iter', 'arith_slots'])
     step_proofs(res, prop, [f'props/{prop}.vo'])
     if a.tier == 'thorough':
         coqchk(res, [f'Props.{prop}'])
